@@ -1,4 +1,4 @@
-(* Stages B-F, part 3: the VM model running [pcode] from an empty stack ends with exactly the value - or stops with
+(* Stages B-G, part 3: the VM model running [pcode] from an empty stack ends with exactly the value - or stops with
    exactly the error class - that [run_stmts] gives (whenever the latter's fuel suffices); the visible variable at
    position i lives in the global slot [scope]_i; conditionals and loops, nested to any depth, run through their jumps;
    when a block ends, its slots simply stay behind. *)
@@ -630,6 +630,100 @@ Section VarVM.
   Qed.
 
 
+  (* the plain loop `for { b }` *)
+  Lemma vm_ploop b base pre post kk k scope :
+    instr = pre ++ P.strip (fst (P.stmt_code k scope base (P.SLoop b))) ++ post ->
+    consts_at base (snd (P.stmt_code k scope base (P.SLoop b))) ->
+    below + P.sneed (P.SLoop b) <= MAXSTACK ->
+    P.wf_stmts true kk b = true ->
+    forall m, (forall j, j < m -> stmt_vm j) ->
+    forall rho s r L bt ct, length rho = kk -> vm_inv rho scope s -> slots_ok k (P.ndecls b) scope s ->
+    P.run_stmt m rho (P.SLoop b) = Some r ->
+    PF.no_ctl r /\
+    after r (good scope s) (good scope s) s
+          (length pre) (length pre + length (fst (P.stmt_code k scope base (P.SLoop b)))) L bt ct (fun _ => []).
+  Proof.
+    intros Hi Hc Hn Hwb.
+    rewrite PF.code_SLoop in *. rewrite PF.sneed_SLoop in Hn.
+    destruct (P.block_code k scope base b) as [cb kb] eqn:Eb. cbv zeta in *. cbn [fst snd] in *.
+    set (inner := cb ++ I [opPopTop]) in *.
+    set (len := length cb + 1).
+    assert (Hlen : length inner = len) by (unfold inner, len; rewrite !app_length, !I_length; cbn [length]; lia).
+    assert (Hjb : nlen inner = N.of_nat len) by (unfold nlen; rewrite Hlen; reflexivity).
+    rewrite Hjb in *.
+    replace (N.of_nat len + 2)%N with (N.of_nat (len + 2)) in * by lia.
+    rewrite strip_app, strip_I, (strip_patch 0 (len + 2) len inner 0%N eq_refl) in Hi.
+    unfold inner in Hi. rewrite !npatch_app, !npatch_I in Hi. cbn [length Nat.add] in Hi.
+    set (pb := npatch 0 (len + 2) len cb) in *.
+    assert (Hlpb : length pb = length cb) by (apply (npatch_length 0); reflexivity).
+    set (jb := N.of_nat len) in *.
+    assert (Hjbn : N.to_nat jb = len) by (unfold jb; apply Nat2N.id).
+    assert (Hcodelen : length (patch 0 (N.of_nat (len + 2)) jb inner ++ I [opJumpBackward; jb; opNop]) = len + 3)
+      by (rewrite app_length, patch_length, Hlen, I_length; reflexivity).
+    set (R := pre ++ pb).
+    assert (HR : length R = length pre + length cb) by (unfold R; rewrite app_length, Hlpb; reflexivity).
+    assert (Hib : instr = pre ++ npatch (length pre - length pre) (len + 2) len (fst (P.block_code k scope base b)) ++
+                          ([opPopTop] ++ [opJumpBackward; jb; opNop] ++ post)).
+    { rewrite Eb. cbn [fst]. rewrite Nat.sub_diag. fold pb. rewrite Hi, <- !app_assoc. reflexivity. }
+    assert (Hkb : consts_at base (snd (P.block_code k scope base b))) by (rewrite Eb; exact Hc).
+    assert (Hinb : inside true pre (length (fst (P.block_code k scope base b))) (length pre) (len + 2) len).
+    { rewrite Eb. cbn [fst]. intros _. unfold len. repeat split; lia. }
+    assert (Hpop : instr = R ++ opPopTop :: (opJumpBackward :: jb :: opNop :: post))
+      by (rewrite Hi; unfold R; rewrite <- !app_assoc; reflexivity).
+    assert (Hjmp : instr = (R ++ [opPopTop]) ++ opJumpBackward :: jb :: (opNop :: post))
+      by (rewrite Hi; unfold R; rewrite <- !app_assoc; reflexivity).
+    assert (HR1 : length (R ++ [opPopTop]) = S (length R)) by (rewrite app_length; cbn [length]; lia).
+    assert (Hnop : instr = (R ++ [opPopTop; opJumpBackward; jb]) ++ opNop :: post)
+      by (rewrite Hi; unfold R; rewrite <- !app_assoc; reflexivity).
+    assert (HR3 : length (R ++ [opPopTop; opJumpBackward; jb]) = length R + 3) by (rewrite app_length; reflexivity).
+    assert (HposJ : S (length R) = length pre + len) by (rewrite HR; unfold len; lia).
+    induction m as [|m IH]; intros Hst rho s r L bt ct Hkk Hinv Hsl Hr; [discriminate|].
+    rewrite PF.run_SLoop in Hr.
+    rewrite <- Hkk in Hwb.
+    assert (Hagain : forall rho1 s1 k0, length rho1 = length rho -> good scope s rho1 s1 ->
+              (forall f, runs (k0 + f) (length pre) [] s = runs f (length pre) [] s1) ->
+              P.run_stmt m rho1 (P.SLoop b) = Some r ->
+              PF.no_ctl r /\
+              after r (good scope s) (good scope s) s (length pre) (length pre + length (patch 0 (N.of_nat (len + 2)) jb inner ++ I [opJumpBackward; jb; opNop]))
+                    L bt ct (fun _ => [])).
+    { intros rho1 s1 k0 Hl1 [Hinv1 Hgl1] Hround Hr'.
+      destruct (IH ltac:(intros j Hj; apply Hst; lia) rho1 s1 r L bt ct ltac:(lia) Hinv1 (slots_ok_state _ _ _ s s1 Hsl Hgl1) Hr') as [Hno [n3 [s3 Hr3]]].
+      split; [exact Hno|]. exists (k0 + n3), s3.
+      destruct r as [[rho3 v3]|[x3|rho3|rho3]]; cbn [PF.no_ctl] in Hno; try contradiction.
+      - destruct Hr3 as [Hinv3 Hr3]. split; [exact (good_trans _ _ _ _ _ Hgl1 Hinv3)|]. intros f. rewrite <- Nat.add_assoc, Hround. apply Hr3.
+      - intros f. rewrite <- Nat.add_assoc, Hround. apply Hr3. }
+    assert (Hjump : forall f s1, runs (S f) (S (length R)) [] s1 = runs f (length pre) [] s1).
+    { intros f s1. rewrite (step_jumpback f (S (length R)) [] s1) by (rewrite Hjmp, <- HR1; apply at0).
+      assert (E : nth (S (length R) + 1) instr 0%N = jb) by (rewrite Hjmp, <- HR1; apply at1).
+      rewrite E, Hjbn, HposJ. replace (length pre + len - len) with (length pre) by lia. reflexivity. }
+    destruct (PF.run_blk m rho b) as [[[rho1 v1]|[xb|rho1|rho1]]|] eqn:Erb; [| | | |discriminate].
+    - destruct (vm_block m (Hst m ltac:(lia)) b rho scope k s base pre _ true (length pre) (len + 2) len _ Hinv Hsl Hwb Hib Hkb ltac:(lia) Hinb Erb)
+        as [n2 [s1 [Hinv1 Hr2]]].
+      rewrite Eb in Hr2. cbn [fst] in Hr2.
+      pose proof (PF.run_block_length m b rho _ Erb) as Hl1. cbn [PF.lenb_ok] in Hl1.
+      apply (Hagain rho1 s1 (n2 + (1 + 1)) Hl1 Hinv1); [|exact Hr].
+      intros f. rewrite <- !Nat.add_assoc, Hr2, <- HR. replace (1 + (1 + f)) with (S (S f)) by lia.
+      rewrite (step_pop (S f) (length R) [] (inj v1) s1) by (rewrite Hpop; apply at0).
+      apply Hjump.
+    - destruct (vm_block m (Hst m ltac:(lia)) b rho scope k s base pre _ true (length pre) (len + 2) len _ Hinv Hsl Hwb Hib Hkb ltac:(lia) Hinb Erb)
+        as [n2 [s1 Hr2]].
+      inversion Hr; subst r. split; [exact Logic.I|]. exists n2, s1. exact Hr2.
+    - (* break: on to the Nop behind the loop *)
+      destruct (vm_block m (Hst m ltac:(lia)) b rho scope k s base pre _ true (length pre) (len + 2) len _ Hinv Hsl Hwb Hib Hkb ltac:(lia) Hinb Erb)
+        as [n2 [s1 [Hinv1 Hr2]]].
+      inversion Hr; subst r. split; [exact Logic.I|]. exists (n2 + 1), s1. split; [exact Hinv1|]. intros f.
+      rewrite <- !Nat.add_assoc, Hr2. cbn [Nat.add].
+      replace (length pre + (len + 2)) with (length R + 3) by lia.
+      rewrite (step_nop tabs c below frames free defers is_main s1 f (length R + 3) []) by (rewrite Hnop, <- HR3; apply at0).
+      rewrite Hcodelen. replace (S (length R + 3)) with (length pre + (len + 3)) by lia. reflexivity.
+    - (* continue: on to the JumpBackward *)
+      destruct (vm_block m (Hst m ltac:(lia)) b rho scope k s base pre _ true (length pre) (len + 2) len _ Hinv Hsl Hwb Hib Hkb ltac:(lia) Hinb Erb)
+        as [n2 [s1 [Hinv1 Hr2]]].
+      pose proof (PF.run_block_length m b rho _ Erb) as Hl1. cbn [PF.lenb_ok] in Hl1.
+      apply (Hagain rho1 s1 (n2 + 1) Hl1 Hinv1); [|exact Hr].
+      intros f. rewrite <- !Nat.add_assoc, Hr2. cbn [Nat.add]. rewrite <- HposJ. apply Hjump.
+  Qed.
+
   (* the rounds of a three-clause loop (after its init clause); [scope] includes the loop variable, k is the next free
      slot; n: the source fuel of body and post; kk: the rounds *)
   Lemma simple_wf_lp lp lp' n p : P.is_simple p = true -> P.wf_stmt lp n p = P.wf_stmt lp' n p.
@@ -785,7 +879,7 @@ Section VarVM.
     induction n as [n IH] using lt_wf_ind.
     destruct n as [|n]; [intros st rho scope k s base pre post lp L bt ct r _ _ _ _ _ _ _ Hr; discriminate|].
     intros st rho scope k s base pre post lp L bt ct r Hinv Hsl Hwf Hi Hc Hn Hin Hr.
-    destruct st as [e|i e|i o e|i up|e|cnd t el|cnd t|cnd b|e cnd p b| |].
+    destruct st as [e|i e|i o e|i up|e|cnd t el|cnd t|cnd b|b|e cnd p b| |].
     - (* x := e *)
       cbn [P.stmt_code P.wf_stmt P.is_expr_stmt P.run_stmt P.sneed P.nd P.next_scope] in *.
       destruct (cexp_in scope base e) as [ce ke] eqn:Ee. cbn [fst snd] in *. rewrite npatch_I in Hi. rewrite I_length.
@@ -1032,6 +1126,16 @@ Section VarVM.
       rewrite (npatch_no_ph bt ct _ _ Hnp) in Hi.
       rewrite PF.nd_SWhile in Hsl.
       exact (proj2 (vm_loop cnd b base pre post (length rho) k scope Hi Hc Hn Hwc Hwb (S n) ltac:(intros j Hj; apply IH; lia)
+                     rho s r L bt ct eq_refl Hinv Hsl Hr)).
+    - (* for { b } *)
+      rewrite PF.wf_SLoop in Hwf.
+      cbn [P.next_scope P.is_expr_stmt] in *.
+      assert (Hnp : no_ph (fst (P.stmt_code k scope base (P.SLoop b)))).
+      { rewrite PF.code_SLoop. destruct (P.block_code k scope base b).
+        cbv zeta. cbn [fst]. apply no_ph_app; [apply no_ph_patch|apply no_ph_I]. }
+      rewrite (npatch_no_ph bt ct _ _ Hnp) in Hi.
+      rewrite PF.nd_SLoop in Hsl.
+      exact (proj2 (vm_ploop b base pre post (length rho) k scope Hi Hc Hn Hwf (S n) ltac:(intros j Hj; apply IH; lia)
                      rho s r L bt ct eq_refl Hinv Hsl Hr)).
     - (* for x := e; cnd; p { b } *)
       rewrite PF.wf_SFor in Hwf. apply andb_true_iff in Hwf. destruct Hwf as [Hwf Hwb].
